@@ -408,7 +408,7 @@ fn operator_conventions(rep: &Report) {
     ctx.add_grid("g.geoid", geoid);
     ctx.add_grid("v.deformation", defo);
     let pts: Vec<(f64, f64)> = vec![(12.3, 55.7), (8.5, 54.25), (15.9, 57.9), (10., 56.), (13.37, 56.66)];
-    let ops: Vec<(&str, Result<OpHandle, Error>)> = ["gridshift grids=d.datum", "gridshift grids=g.geoid", "deformation grids=v.deformation dt=1 raw", "deformation grids=v.deformation t_epoch=2000 raw", "deflection grids=g.geoid"]
+    let ops: Vec<(&str, Result<OpHandle, Error>)> = ["gridshift grids=d.datum", "gridshift grids=g.geoid", "deformation grids=v.deformation dt=1 raw", "deformation grids=v.deformation t_epoch=2000 raw", "deformation grids=v.deformation dt=1", "deformation grids=v.deformation t_epoch=2000", "deflection grids=g.geoid"]
         .iter()
         .map(|d| (*d, ctx.op(d)))
         .collect();
@@ -463,6 +463,26 @@ fn operator_conventions(rep: &Report) {
                     dt * (cl * v[0] - sp * sl * v[1] + cp * sl * v[2]),
                     dt * (cp * v[1] + sp * v[2]),
                 ];
+                if !def.contains("raw") {
+                    // the documented transformation (eq. 3 of the operator's documentation): forward REMOVES the deformation
+                    // accumulated from the frame epoch T0 to the observation epoch T1, X' = X - (T1 - T0) * V, inverse adds it back.
+                    // A fixed dt stands for T1 - T0
+                    let form = if def.contains("dt=1") { "fixed dt" } else { "t_epoch and the observation epoch" };
+                    let fwd_ok = n == 1 && (0..3).all(|k| (d[0][k] - (xyz[k] - want[k])).abs() <= 1e-6 * len_want.max(1e-9)) && d[0][3] == t;
+                    if !fwd_ok {
+                        rep.violation(
+                            &format!("deformation forward does not subtract (T1 - T0) x velocity as documented / time span from {form}"),
+                            json!({"def": def, "lon_deg": lon, "lat_deg": lat, "input": [xyz[0], xyz[1], xyz[2], t], "observed": d[0].0, "expected": [xyz[0] - want[0], xyz[1] - want[1], xyz[2] - want[2], t]}),
+                        );
+                    }
+                    let n = ctx.apply(*op, Inv, &mut d).unwrap_or(0);
+                    if n != 1 || (0..3).any(|k| (d[0][k] - xyz[k]).abs() > 1e-3 * len_want.max(1e-9) + 1e-9) {
+                        // (the inverse looks the velocity up at the shifted position without iterating: it is exact only to
+                        // first order in the deformation, which is all the sign convention needs)
+                        rep.violation("deformation inverse does not add the deformation back", json!({"def": def, "lon_deg": lon, "lat_deg": lat, "observed": d[0].0, "expected": xyz}));
+                    }
+                    continue;
+                }
                 let vec_ok = (0..3).all(|k| (d[0][k].abs() - want[k].abs()).abs() <= 1e-6 * len_want.max(1e-9));
                 if n != 1 || (len_got - len_want).abs() > 1e-6 * len_want.max(1e-9) || !vec_ok {
                     rep.violation(
